@@ -22,6 +22,23 @@ FormMsgs == {D(1, 8, 1, 0, 1), D(2, 9, 1, 16777215, 130), D(3, 8, 1, 16777215, 1
 \* documented librtmp form and the rule violations
 PingMsgs == {UC(1, 0), UC(2, 7), D(3, 8, 1, 0, 130), D(4, 8, 1, 5, 3)}
 
+\* extended timestamps and extended DELTAS on messages of several chunks (the field is repeated in every
+\* continuation chunk: after fmt 0 it is the timestamp, after fmt 1/2 - and for a fmt 3 that starts a message - the delta)
+TsMultiMsgs == {D(1, 8, 1, 1000, 130), D(2, 8, 1, 16778216, 130), D(3, 9, 1, 16777215, 257), D(4, 9, 1, 33554430, 130),
+                D(5, 8, 1, 50331645, 129), D(6, 8, 1, 2147483647, 130)}
+
+\* many chunk streams in one connection: ManyN chunk streams each carry a fmt-0 message, then each of them a
+\* fmt-1 message (which needs the header state the first pass left behind); a scripted, single behaviour
+ManyN == 1100
+ManyMsgs == {D(i, 8, 1, 10 * i, 1) : i \in 1..(2 * ManyN)}
+ManyCids == 3..(ManyN + 2)
+ManyNext == LET k == Cardinality(started) + 1 IN
+  /\ k <= 2 * ManyN
+  /\ LET cid == IF k <= ManyN THEN k + 2 ELSE k - ManyN + 2
+         f   == IF k <= ManyN THEN 0 ELSE 1
+     IN Start(MsgById(k), cid, f, CHOOSE x \in FormsOf(cid) : TRUE, FALSE)
+ManySpec == Init /\ [][ManyNext]_vars
+
 \* simulation: the unfactored product
 SimMsgs == {D(1, 8, 1, 0, 0), D(2, 8, 1, 40, 1), D(3, 9, 1, 16777214, 128), D(4, 9, 2, 16777215, 129), D(5, 8, 1, 16777216, 257),
             D(6, 18, 1, 33554430, 300), D(7, 9, 1, 2147483647, 5), D(8, 8, 1, 1000, 130), D(9, 20, 0, 2000, 64), D(10, 9, 1, 2000, 64),
